@@ -863,7 +863,7 @@ def getitem_cases(ctx):
     universe = [(), ("a",), ("a", "b"), ("a", "b", "c"), ("x",), ("a", "c")]
     keys = universe + [("a", "b", "c", "d"), ("x", "y"), ("b",)]
     items = []
-    n = ctx.n(150, 1500)
+    n = ctx.n(100, 1500)
     for _ in range(n):
         k = ctx.rng.choice([1, 2, 2, 3, 3, 4])
         prefixes = ctx.rng.sample(universe, k)
@@ -911,7 +911,7 @@ def getitem_cases(ctx):
 def run(ctx):
     items = []
     cases = [dict(c) for c in CORPUS]
-    nbase = ctx.n(26, 130)
+    nbase = ctx.n(20, 130)
     limit = 3 if ctx.tier == "quick" else 6
     ksample = 4 if ctx.tier == "quick" else 24
     made = 0
